@@ -75,16 +75,17 @@ func qCtors() []qCtor {
 }
 
 type qdCase struct {
-	prop       string // C11 | C12 | C13: which family of failures is reported
-	ctor       qCtor
-	fixedPool  string // "", "fifo", "lifo": use NewFixedPool instead of ctor
-	limit      int
-	maxBacklog int
-	timeout    time.Duration
-	evict      bool
-	maxArrive  int
-	depth      int
-	preArrive  int // arrivals performed before the nondeterministic part
+	prop        string // C11 | C12 | C13: which family of failures is reported
+	ctor        qCtor
+	fixedPool   string // "", "fifo", "lifo": use NewFixedPool instead of ctor
+	limit       int
+	maxBacklog  int
+	timeout     time.Duration
+	evict       bool
+	maxArrive   int
+	depth       int
+	limitEvents bool // the event alphabet includes changes of the enforced limit
+	preArrive   int  // arrivals performed before the nondeterministic part
 }
 
 type qdWaiter struct {
@@ -110,8 +111,8 @@ func qdScenario(cs qdCase) *mc.Scenario {
 	}
 	return &mc.Scenario{
 		Name: fmt.Sprintf("%s/qdriver/%s", cs.prop, name),
-		Params: fmt.Sprintf("order=%s limit=%d maxBacklog=%d timeout=%v evict=%v arrivals<=%d pre=%d depth=%d", want, cs.limit, cs.maxBacklog,
-			cs.timeout, cs.evict, cs.maxArrive, cs.preArrive, cs.depth),
+		Params: fmt.Sprintf("order=%s limit=%d maxBacklog=%d timeout=%v evict=%v arrivals<=%d pre=%d depth=%d limit-events=%v", want, cs.limit, cs.maxBacklog,
+			cs.timeout, cs.evict, cs.maxArrive, cs.preArrive, cs.depth, cs.limitEvents),
 		Cfg: vrt.Config{MaxSteps: 20000},
 		Body: func(x *mc.Exec) {
 			fail := func(sig, format string, a ...any) {
@@ -122,6 +123,8 @@ func qdScenario(cs qdCase) *mc.Scenario {
 			reg := NewRecRegistry()
 			var top core.Limiter
 			var busy func() int
+			var setLimit func(v int) // changes the enforced limit under the queue limiter's feet (nil for pools)
+			curLimit := cs.limit
 			if cs.fixedPool != "" {
 				ord := pool.OrderingFIFO
 				if cs.fixedPool == "lifo" {
@@ -140,6 +143,9 @@ func qdScenario(cs qdCase) *mc.Scenario {
 				def := newDefaultLimiter(limit.NewFixedLimit("f", cs.limit, nil), strat, 1e6, 1e6, nil)
 				top = cs.ctor.build(def, cs.maxBacklog, cs.timeout, cs.evict, reg)
 				busy = func() int { return stratView{s: strat}.Busy() }
+				if cs.limitEvents {
+					setLimit = strat.SetLimit
+				}
 			}
 			effBacklog, effTimeout := cs.maxBacklog, cs.timeout
 			if strings.Contains(cs.ctor.name, "WithDefaults") && cs.fixedPool == "" {
@@ -163,7 +169,7 @@ func qdScenario(cs qdCase) *mc.Scenario {
 				w.ctx, w.cancel = vctx.WithCancel(waiterCtx(w.id))
 				ws = append(ws, w)
 				full := len(waiting) >= effBacklog
-				free := len(heldToks) < cs.limit
+				free := len(heldToks) < curLimit
 				vrt.GoL(fmt.Sprintf("W%d", w.id), func() {
 					l, ok := top.Acquire(w.ctx)
 					w.retClock = vrt.Now()
@@ -192,7 +198,7 @@ func qdScenario(cs qdCase) *mc.Scenario {
 				default:
 					if w.returned {
 						if w.granted {
-							fail("C12:granted-over-limit", "arrival %d was granted while %d tokens are held (limit %d)", w.id, len(heldToks), cs.limit)
+							fail("C12:granted-over-limit", "arrival %d was granted while %d tokens are held (limit %d)", w.id, len(heldToks), curLimit)
 							heldToks = append(heldToks, w.tok)
 						} else {
 							fail("C12:refused-with-backlog-room", "arrival %d was refused although the backlog holds %d < %d callers", w.id, len(waiting), effBacklog)
@@ -304,6 +310,13 @@ func qdScenario(cs qdCase) *mc.Scenario {
 						menu = append(menu, ev{"X", id})
 					}
 				}
+				if setLimit != nil {
+					for _, v := range []int{1, 2, 3} {
+						if v != curLimit && v <= cs.limit+1 {
+							menu = append(menu, ev{"S", v})
+						}
+					}
+				}
 				if len(menu) == 0 {
 					break
 				}
@@ -323,9 +336,17 @@ func qdScenario(cs qdCase) *mc.Scenario {
 					complete(tok, step%3)
 					vrt.WaitQuiescent()
 					nr := newlyReturned(before)
-					if len(waiting) == 0 {
+					if len(waiting) == 0 || len(heldToks) >= curLimit {
+						// nobody waits, or the release freed no capacity (the limit was lowered meanwhile):
+						// nobody may return, and the waiters keep their places
 						if len(nr) != 0 {
-							fail("C11:spurious-return", "a release with an empty backlog made waiters return: %v", ids(nr))
+							fail("C11:spurious-return", "a release that freed no capacity for a waiter (held %d, limit %d, waiting %v) made waiters return: %v; history %v", len(heldToks), curLimit, waiting, ids(nr), history)
+							for _, w := range nr {
+								remove(w.id)
+								if w.granted {
+									heldToks = append(heldToks, w.tok)
+								}
+							}
 						}
 						break
 					}
@@ -377,6 +398,9 @@ func qdScenario(cs qdCase) *mc.Scenario {
 							fail("C13:timeout-not-honoured", "waiter %d did not leave at its bound", first)
 						}
 					}
+				case "S":
+					setLimit(e.arg)
+					curLimit = e.arg
 				case "X":
 					w := ws[e.arg]
 					t0 := vrt.Now()
